@@ -16,6 +16,9 @@ JBuild(e) == LET n == Norm(Fs(e.spec)) p == Fs(e.F) IN Chk(SameFS(n, p), "Build.
 JUnify(e) ==
   LET F == Fs(e.F) G == Fs(e.G) u == Unify(F, G) IN
   IF u.ok THEN Chk(e.res = "ok", "unify.succeeds")
+               \* the public accessor get_feature_by_path must see what the structure holds (recorded by the harness)
+               \cup (IF Has(e, "R") /\ Has(e.R, "accbad") THEN Fl("unify.accessor") ELSE {})
+               \cup (IF Has(e, "R2") /\ Has(e.R2, "accbad") THEN Fl("unify.symmetric.accessor") ELSE {})
                \cup (IF e.res = "ok" THEN Chk(SameFS(Fs(e.R), [paths |-> u.paths, atoms |-> u.atoms, same |-> u.same]), "unify.glb") ELSE {})
                \cup Chk(e.res2 = "ok", "unify.symmetric.succeeds")
                \cup (IF e.res2 = "ok" THEN Chk(SameFS(Fs(e.R2), [paths |-> u.paths, atoms |-> u.atoms, same |-> u.same]), "unify.symmetric.glb") ELSE {})
